@@ -110,4 +110,10 @@ def matmulDiaJ (j : Json) : Except String Json := do
   let out := matmulDia a b s
   pure <| Json.mkObj [("abs", absJ out.rows out.cols out.abs), ("offsets", Json.arr (out.diags.map fun p => (p.1 : Json)).toArray)]
 
+def transposeDiaJ (j : Json) : Except String Json := do
+  let a ← diaOf j "a"
+  let conj ← getBool j "conj"
+  let out := mapTransposeDia (fun (z : CI) => if conj then ⟨z.re, -z.im⟩ else z) a
+  pure <| Json.mkObj [("abs", absJ out.rows out.cols out.abs), ("offsets", Json.arr (out.diags.map fun p => (p.1 : Json)).toArray)]
+
 end Qv.Drv.C01
